@@ -528,6 +528,10 @@ class ConcurrentExecutor(ABC, Generic[CallableType, ResultType]):
             elif checkpoint.is_failed():
                 error = checkpoint.error
                 status = BatchItemStatus.FAILED
+                # read from its record without going through the child handler: count the
+                # completed branch as visited, or the replay status never turns NEW and the
+                # context logger stays silent for the rest of the invocation
+                execution_state.track_replay(operation_id=operation_id)
             else:
                 status = BatchItemStatus.STARTED
 
